@@ -361,7 +361,7 @@ func runNeutral(c *Ctx, repo, verif string, base map[string]*Obligation) ([]seed
 	sort.Strings(patches)
 	out := make([]seedResult, len(patches))
 	fails := make([]int, len(patches))
-	sem := make(chan struct{}, 6)
+	sem := make(chan struct{}, 12)
 	var wg sync.WaitGroup
 	for i, patch := range patches {
 		wg.Add(1)
